@@ -154,6 +154,52 @@ func hasBindingRule(p *Prog, r *Report, rule string) {
 				okTrue = false
 			}
 		}
+		if nTrue == 0 {
+			// the search may be delegated to slices.ContainsFunc over the query result with a predicate closure:
+			// the predicate then must be the whole-address equality
+			forEachCallOwn(fn, func(site ssa.CallInstruction) {
+				c, ok := site.(*ssa.Call)
+				if !ok {
+					return
+				}
+				callee := c.Call.StaticCallee()
+				if callee == nil || fnPkgPath(callee) != "slices" || originName(callee) != "ContainsFunc" || len(c.Call.Args) != 2 {
+					return
+				}
+				if !strings.Contains(Path(c.Call.Args[0]), "BindingsOnFeature()") || !flowsToReturn(c) {
+					return
+				}
+				var cl *ssa.Function
+				switch x := c.Call.Args[1].(type) {
+				case *ssa.MakeClosure:
+					cl, _ = x.Fn.(*ssa.Function)
+				case *ssa.Function:
+					cl = x
+				}
+				if cl == nil || len(cl.Params) != 1 {
+					return
+				}
+				for _, cb := range cl.Blocks {
+					ret, isRet := cb.Instrs[len(cb.Instrs)-1].(*ssa.Return)
+					if !isRet || len(ret.Results) != 1 {
+						continue
+					}
+					nTrue++
+					good := false
+					if dc, isCall := ret.Results[0].(*ssa.Call); isCall {
+						if dcal := dc.Call.StaticCallee(); dcal != nil && fnPkgPath(dcal) == "reflect" && dcal.Name() == "DeepEqual" {
+							l, rr := Path(dc.Call.Args[0]), Path(dc.Call.Args[1])
+							want := "param:" + fn.Params[2].Name()
+							el := "param:" + cl.Params[0].Name() + ".ClientFeature.Address()"
+							good = (l == el && rr == want) || (rr == el && l == want)
+						}
+					}
+					if !good {
+						okTrue = false
+					}
+				}
+			})
+		}
 		r.Check(rule, base+"|match", nTrue > 0 && okTrue, p.Pos(fn.Pos()), "true is returned only under equality of the entry's whole client feature address (device, entity and feature) with the remote address argument")
 	}
 }
